@@ -24,15 +24,20 @@ def init_worker():
     c06.init_worker()
 
 
-def two_day_window(series, m0, day):
+def two_day_window(series, m0, day, dim=None):
     """48 hourly values: the day before the peak day and the peak day (wrapping Dec 31 before Jan 1)"""
-    s = LG.month_start_hour(m0) + 24 * (day - 1)
-    return [series[(s + h) % 8760] for h in range(48)]
+    s = LG.month_start_hour(m0, dim) + 24 * (day - 1)
+    n = len(series)
+    return [series[(s + h) % n] for h in range(48)]
 
 
 def check_one(case, res):
-    loads = c06.profile_of(case)
-    ref = LG.monthly_reference(loads)
+    loads = c06.profile_of({k: v for k, v in case.items() if k != "year"})
+    year = case.get("year", 2019)
+    dim = LG.DAYS_IN_MONTH_LEAP if year % 4 == 0 else None
+    if dim:
+        loads = c06.leapify(loads)  # a leap load year: 8784 hourly values
+    ref = LG.monthly_reference(loads, dim)
     rej = [(-x / 1000.0) if x < 0 else 0.0 for x in loads]
     ext = [(x / 1000.0) if x >= 0 else 0.0 for x in loads]
     params = case["params"]
@@ -42,14 +47,14 @@ def check_one(case, res):
         res["evals"] += 1
         c1 = dict(case, horizons=[n_sim])
         try:
-            hl = hybrid.make_hybrid(loads, n_sim, params, start_month=sm0)
+            hl = hybrid.make_hybrid(loads, n_sim, params, start_month=sm0, years=[year])
         except Exception as e:  # noqa: BLE001
             res["violations"].append(core.viol("hybrid_load_raised", c1, msg=f"HybridLoad raised {type(e).__name__}: {e}", exc=type(e).__name__))
             continue
         bhe, rn = hybrid.bhe_and_radial(params)
         hour = [float(h) for h in hl.hour]
         load = [float(x) for x in hl.load]
-        ends = LG.month_end_hours(n_months)
+        ends = LG.month_end_hours(n_months, dim)
 
         def v(kind, msg, **attrs):
             res["violations"].append(core.viol(kind, c1, msg=f"horizon {n_months}: {msg}", **attrs))
@@ -73,7 +78,7 @@ def check_one(case, res):
                     if d != 1.0e-6:
                         v("duration_for_direction_without_load", f"month {i} has no {name} load but a {name} peak duration of {d} h", direction=name)
                     continue
-                win = two_day_window(series, i - 1, day)
+                win = two_day_window(series, i - 1, day, dim)
                 if max(win) > peak + 0.1:
                     res.bump("previous_month_higher_skipped")
                     continue
@@ -195,6 +200,10 @@ def main(run: core.Run, only=None):
             sm.append({"profile": "patterns", "patterns": [A[pi]] * 12, "params": params[0], "horizons": [12, 30], "start": st})
         sm.append({"profile": "office", "params": params[1], "horizons": [24, 37], "start": st})
     run.drive(sm, family="start-month")
+    # a leap load year (366 days, 8784 hourly values) given to HybridLoad directly
+    ly = [{"profile": "patterns", "patterns": [A[pi]] * 12, "params": params[0], "horizons": [12, 25], "year": 2020} for pi in ((8, 38, 70, 100, 130, 160) if quick else range(1, nA, 7))]
+    ly.append({"profile": "office", "params": params[1], "horizons": [12, 37], "year": 2024})
+    run.drive(ly, family="leap-year")
     misc = [{"profile": k, "params": p, "horizons": [12, 37]} for p in params[:3] for k in ("office", "mirror")]
     misc += [{"profile": "const", "value": val, "params": params[0], "horizons": [12, 37]} for val in (5000.0, -5000.0, 0.0)]
     run.drive(misc, family="misc")
